@@ -1,11 +1,51 @@
 (* Wire-level wrappers of property C17: decode arguments from sx, run the model, encode.
    Dispatch.v routes a block of unit numbers here; [k] is the offset inside the block. *)
 From Coq Require Import ZArith QArith List Bool.
-From VL Require Import Prelude.Sx.
+From VL Require Import Prelude.Sx Prelude.PyDict Model.GetNBest Model.Convert Model.Bucklin.
 Import ListNotations.
 Open Scope Z_scope.
 
+Definition as_item17 (s : sx) : option item :=
+  match s with
+  | A (Zpos c) => Some (IP c)
+  | L l => match opt_map as_pos l with Some l => Some (IS l) | None => None end
+  | _ => None
+  end.
+Definition as_coefspec (s : sx) : option coefspec :=
+  match s with
+  | L [A 0; l] => match as_listof as_Q l with Some l => Some (CoefList l) | None => None end
+  | L [A 1] => Some CoefHarmonic
+  | _ => None
+  end.
+Definition of_res17 (r : res positive) : sx :=
+  match r with
+  | Cand c => of_pos c
+  | TieR l => L (map of_pos l)
+  end.
+Definition of_pa (r : pa_result) : sx :=
+  match r with
+  | PA_ok l => ok (L (map of_res17 l))
+  | PA_value_error => err E_VALUE
+  | PA_index_error => err E_INDEX
+  | PA_nie => err E_NIE
+  | PA_unmodelled => L [A 4]
+  end.
+
+(* offset 0: PreferenceAddition(coefficients, split_equal_rankings).evaluate(votes, n)
+   args: (fx coefspec split votes n) ; fx = 1 when the implementation has the repaired splicing loop ; votes = dict ranked ballot -> Q in insertion order,
+   a shared rank is the list of its members in the iteration order of the frozenset *)
+Definition u_preference_addition (a : sx) : sx :=
+  match a with
+  | L [fx; cs; sp; v; n] =>
+      match as_bool fx, as_coefspec cs, as_bool sp, as_dict (as_listof as_item17) as_Q v, as_nat n with
+      | Some fx, Some cs, Some sp, Some votes, Some n => of_pa (pa_evaluate fx cs sp votes n)
+      | _, _, _, _, _ => bad_input
+      end
+  | _ => bad_input
+  end.
+
 Definition u_c17 (k : Z) (a : sx) : sx :=
   match k with
+  | 0 => u_preference_addition a
   | _ => bad_input
   end.
